@@ -46,8 +46,8 @@ ID = "C18"
 LEVEL = "fault_enumeration"
 SOFT_TIMEOUT = 20
 TIERS = {
-  "quick": {"runs": 1200, "hard_timeout": 60, "confirm_timeout": 120, "shrink_budget": 25, "shrink_total": 240, "det_sample": 40},
-  "thorough": {"runs": 600000, "hard_timeout": 90, "confirm_timeout": 120, "shrink_budget": 90, "shrink_total": 900, "det_sample": 200},
+  "quick": {"runs": 1200, "hard_timeout": 60, "confirm_timeout": 120, "shrink_budget": 25, "shrink_total": 240, "det_sample": 30},
+  "thorough": {"runs": 600000, "hard_timeout": 90, "confirm_timeout": 120, "shrink_budget": 90, "shrink_total": 900, "det_sample": 120},
 }
 FORMATS = ["srt", "vtt", "scc", "stl", "ttml"]
 SWEEP_PERIOD = 40
@@ -299,8 +299,8 @@ def run_one(rng, case, stats, rec, log, ctx=None):
     log.add("replay", fmt, len(data2), out)
     return
 
-  if ctx is not None and ctx["index"] % SWEEP_PERIOD < SWEEP_CHUNKS:
-    run_sweep((ctx["index"] // SWEEP_PERIOD, ctx["index"] % SWEEP_PERIOD, ctx["seed"]), stats, rec, log, ctx.get("beat"))
+  if ctx is not None and ctx["index"] % SWEEP_PERIOD >= SWEEP_PERIOD - SWEEP_CHUNKS:
+    run_sweep((ctx["index"] // SWEEP_PERIOD, ctx["index"] % SWEEP_PERIOD - (SWEEP_PERIOD - SWEEP_CHUNKS), ctx["seed"]), stats, rec, log, ctx.get("beat"))
     return
   mode_draw = rng.random()
 
